@@ -37,6 +37,14 @@ Known regions (tagged; generated only with small probability so that the tags st
    F-C04-5  NEW (inline): an inline tag with `>` inside a quoted attribute value (`<span title="a > b">`) is cut at that `>` by
             HTML_RE and the rest is escaped.
 
+HISTORY mode (12 % of the cases; the per-instance `block_level_elements` list, core.py:116,302-313).  One instance first converts 1..2
+warm-up documents (ordinary ones, ones with raw blocks, ones that already USE the tag under test; `reset()` between), possibly after
+an earlier edit of its list; then the list is edited the ways user code does it -- append / insert / extend in place, remove in place,
+or assignment of a new list -- adding a custom tag (`widget`, `x-card`, ...), adding an inline tag (`span`, `kbd`, ...), removing a
+standard tag (`div`, `p`, `table`, ...), or taking an earlier addition back / re-adding a removed tag; then the raw-block document (whose
+forced block uses that tag) is converted.  Required: the same output as a FRESH instance that gets the same edits before its first
+conversion; and, when the tag is block-level at the end, the ordinary raw-block check for it.
+
 INLINE half.  Inline elements / tags (`<span class="x">`, `<b>`, `<a href="u">`, `<kbd>`, `<br/>`, `<img ...>`, end tags) and entity
 references (`&amp; &copy; &#169; &#xA9; &frac12;` ...; hexadecimal references with a lower-case `x`, the only spelling ENTITY_RE knows) are put
 into ordinary text of paragraphs, ATX / Setext headings, tight / loose list items, quotes, between emphasis, inside emphasis
@@ -87,19 +95,22 @@ def check_block(out, E):
     return None
 
 
-def gen_block_case(rng):
+def gen_block_case(rng, raws=None, html=None):
     html_around = rng.random() < 0.3
+    if html is not None: html_around = html
     opt = docs.Opt(code=True, html=html_around)
     nraw = rng.choice([1, 1, 1, 2])
-    raws = []
-    for _ in range(nraw):
+    raws = [(k, t, True) for k, t in (raws or [])]          # given by the caller ("forced")
+    while len(raws) < nraw:
         kind, text = rawhtml.raw_block(rng)
-        raws.append((kind, text))
+        raws.append((kind, text, False))
+    nraw = len(raws)
     if nraw == 2 and (raws[0][1] in raws[1][1] or raws[1][1] in raws[0][1]): raws = raws[:1]
     ctx = docs.blocks(rng, rng.choice([0, 1, 1, 2, 2, 3, 4]), opt)
     # positions for the raw blocks among the context blocks
     seq = [('md', k, t) for k, t in ctx]
-    for kind, text in raws:
+    forced = set(t for k, t, f in raws if f)
+    for kind, text, _f in raws:
         seq.insert(rng.randint(0, len(seq)), ('raw', kind, text))
     src = ''; labels = []; blocks = []; region = None
     for i, (what, kind, text) in enumerate(seq):
@@ -123,13 +134,82 @@ def gen_block_case(rng):
                 src += rng.choice(['\n\n', '\n\n', '\n\n\n', '\n \n'])
         if _NAME_NL.match(text) and rng.random() < 0.95:              # F-C04-4: mostly avoided
             text = re.sub(r'^(<[A-Za-z][^\s>/]*)\n', r'\1 ', text)
+        is_forced = seq[i][2] in forced
         prevkind = (seq[i - 1][1] if seq[i - 1][0] == 'md' else 'raw') if i else 'start'
         src += ' ' * indent + text + rng.choice(['', '', '', ' ', '  '])
         blocks.append({'text': text, 'kind': kind, 'indent': indent, 'glued': glued, 'after': prevkind,
-                       'last': i == len(seq) - 1})
+                       'last': i == len(seq) - 1, 'forced': is_forced})
         labels.append('%s/after-%s%s' % (kind, prevkind, '/glued' if glued else ''))
     without = '\n\n'.join(text for what, kind, text in seq if what == 'md')
     return {'kind': 'block', 'doc': src, 'doc_without': without, 'blocks': blocks, 'labels': labels}
+
+
+# ---------------------------------------------------------------- history mode (per-instance block-level element list)
+CUSTOM_TAGS = ['widget', 'x-card', 'mytag', 'app-root', 'w1', 'gizmo', 'o-k']
+INLINE_AS_BLOCK = ['span', 'kbd', 'b', 'em', 'a', 'u']
+REMOVABLE = ['div', 'p', 'section', 'table', 'pre', 'details', 'aside', 'ul', 'h2', 'blockquote', 'article']
+
+
+def apply_op(md, op):
+    """the ways user code edits the per-instance list: in place (append / insert / extend / remove) or by assigning a new list"""
+    how, tag = op
+    L = md.block_level_elements
+    if how == 'append': L.append(tag)
+    elif how == 'insert0': L.insert(0, tag)
+    elif how == 'extend': L.extend([tag, tag + 'x'])
+    elif how == 'assign+': md.block_level_elements = list(L) + [tag]
+    elif how == 'remove':
+        while tag in L: L.remove(tag)
+    elif how == 'assign-': md.block_level_elements = [t for t in L if t != tag]
+
+
+def gen_history_case(rng):
+    """One instance converts 1..2 documents (reset between), possibly after an earlier edit of its list; then the list is edited
+    (a custom tag or an inline tag added, a standard tag removed, an earlier addition taken back); then the raw-block document is
+    converted.  Compared with a FRESH instance that gets the same edits before its first conversion; if the tag under test is
+    block-level at the end, the ordinary raw-block check runs as well."""
+    mode = rng.choice(['add-custom', 'add-custom', 'add-inline', 'remove-std', 'add-then-remove', 'remove-then-add'])
+    if mode == 'add-custom': tag = rng.choice(CUSTOM_TAGS)
+    elif mode == 'add-inline': tag = rng.choice(INLINE_AS_BLOCK)
+    elif mode in ('remove-std', 'remove-then-add'): tag = rng.choice(REMOVABLE)
+    else: tag = rng.choice(CUSTOM_TAGS + INLINE_AS_BLOCK)
+    add = lambda: (rng.choice(['append', 'append', 'insert0', 'extend', 'assign+']), tag)
+    rem = lambda: (rng.choice(['remove', 'remove', 'assign-']), tag)
+    final_block = mode in ('add-custom', 'add-inline', 'remove-then-add')
+    elem = rawhtml.element(rng, 1, 3, tag=tag)
+    # an inline tag that becomes block-level: the Markdown around must not use it unbalanced (`<span class="c">` alone at a line start
+    # would then open a raw block that runs to the end of input) -> no inline HTML in the surroundings for that mode
+    case = gen_block_case(rng, raws=[('elem', elem)], html=False if tag in INLINE_AS_BLOCK else None)
+    # warm-up documents: ordinary ones, documents with raw blocks, and -- so that any per-tag memo is filled with the OLD answer --
+    # documents that already use the tag under test
+    def warm():
+        k = rng.random()
+        if k < 0.4: return gen_block_case(rng, raws=[('elem', rawhtml.element(rng, 1, 2, tag=tag))])['doc']
+        if k < 0.7: return gen_block_case(rng)['doc']
+        return docs.doc(rng, rng.choice([1, 2, 3]), docs.Opt(code=True, html=rng.random() < 0.3))
+    steps = []
+    if mode == 'add-then-remove': steps.append(['op'] + list(add()))
+    if mode == 'remove-then-add': steps.append(['op'] + list(rem()))
+    for _ in range(rng.choice([1, 1, 2])): steps.append(['convert', warm()])
+    if mode in ('add-custom', 'add-inline', 'remove-then-add'): steps.append(['op'] + list(add()))
+    else: steps.append(['op'] + list(rem()))
+    if rng.random() < 0.25:                                   # an unrelated edit after it
+        steps.append(['op', 'append', 'zz-other'])
+    case['history'] = {'mode': mode, 'tag': tag, 'steps': steps, 'final_block': final_block}
+    case['labels'] = ['history/' + mode] + (case['labels'] if final_block else [])
+    if not final_block: case['blocks'] = []      # the tag is not block-level at the end: only the comparison with the fresh instance (an inline
+    #                                              element in front of / around the other raw block of the document changes what that one is)
+    return case
+
+
+def run_history(case):
+    """-> (output of the instance with the history, output of the fresh instance)"""
+    h = case['history']
+    mdh, mdf = markdown.Markdown(), markdown.Markdown()
+    for st in h['steps']:
+        if st[0] == 'convert': mdh.convert(st[1]); mdh.reset()
+        else: apply_op(mdh, (st[1], st[2])); apply_op(mdf, (st[1], st[2]))
+    return mdh.convert(case['doc']), mdf.convert(case['doc'])
 
 
 def block_region(case, b, md_probe):
@@ -223,12 +303,22 @@ def evaluate(case, md=None, md_probe=None):
     """-> list of violation dicts (empty = fine) or None for a skip"""
     md = md or markdown.Markdown()
     md_probe = md_probe or markdown.Markdown()
+    v = []
     try:
-        out = md.reset().convert(case['doc'])
+        if case.get('history'):
+            out, out_fresh = run_history(case)
+            if out != out_fresh:
+                h = case['history']
+                return [{'input': case, 'config': {'block_level_elements': '%s: %s' % (h['mode'], h['tag'])}, 'observed': 'instance with history: ' + repr(out),
+                         'required': 'as a fresh instance with the same block_level_elements: ' + repr(out_fresh), 'finding': None}]
+            md = markdown.Markdown()
+            for st in case['history']['steps']:
+                if st[0] == 'op': apply_op(md, (st[1], st[2]))
+        else:
+            out = md.reset().convert(case['doc'])
         if case['kind'] == 'inline': out0 = md.reset().convert(case['doc_placebo'])
     except RecursionError:
         return 'recursion'
-    v = []
     if case['kind'] == 'block':
         for b in case['blocks']:
             E = normalise(b['text'])
@@ -265,7 +355,8 @@ def search(driver, rng, n):
     def bump(k): dist[k] = dist.get(k, 0) + 1
     viol, samples, seen, cases = [], [], set(), 0
     for _ in range(n):
-        case = gen_block_case(rng) if rng.random() < 0.65 else gen_inline_case(rng)
+        k = rng.random()
+        case = gen_history_case(rng) if k < 0.12 else gen_block_case(rng) if k < 0.68 else gen_inline_case(rng)
         cases += 1
         for l in case['labels']: bump('inline' if case['kind'] == 'inline' else l)
         if case['kind'] == 'inline':
